@@ -489,3 +489,16 @@ class PtrSlot(object):
         p = PtrSlot(newname, self.to)
         p.target = self.target
         return p
+
+
+class MutexV(object):
+    """std::mutex member: no data; only named by scoped locks"""
+
+    def __init__(self, name):
+        self.name = name
+
+    def storage(self):
+        return ([], [])
+
+    def renamed(self, newname):
+        return MutexV(newname)
